@@ -2,6 +2,7 @@
 configurations and pipelined request histories (frames by the reference builder), the expected
 reaction of a conformant server (servermodel.Model), execution through a front-end, strict
 parsing of everything the front-end wrote, and the input predicates of the known regions."""
+import os
 from . import frontends as FE
 from . import gen
 from . import repo
@@ -107,7 +108,7 @@ def framer_units(front, hosted, flags):
 
 
 LOSSY = ('rtu-one-frame-per-call', 'binary-pipelined-frame-skipped', 'foreign-unit-frame-discards-rest-of-read', 'binary-delimiter-in-body',
-         'tls-framer-keyerror-in-multi-unit-mode', 'twisted-udp-dead', 'twisted-listen-only-is-permanent')
+         'twisted-listen-only-is-permanent')
 
 
 def regions(case):
@@ -116,10 +117,6 @@ def regions(case):
     out = set()
     hosted = sorted(int(u) for u in layout['units'])
     multi = not layout['single']
-    if front == 'tw-udp':
-        out.add('twisted-udp-dead')
-    if framing == 'tls' and multi and 0 not in hosted and 255 not in hosted:
-        out.add('tls-framer-keyerror-in-multi-unit-mode')
     units_seen_by_framer = framer_units(front, hosted, flags)
     filter_on = multi and 0 not in units_seen_by_framer and 255 not in units_seen_by_framer
     for ri, rd in enumerate(case['reads']):
@@ -144,7 +141,7 @@ def regions(case):
                     out.add('rtu-diag-fixed-size')
             if m['fc'] == 8 and m.get('sub') == 4 and front.startswith('tw'):
                 out.add('twisted-listen-only-is-permanent')
-    return out
+    return out - set(os.environ.get('VERIF_NO_REGION', '').split(','))      # (experiments with candidate repairs)
 
 
 def expectations(case, model, new_units=None):
